@@ -792,6 +792,25 @@ def run_shard(desc):
         if d.message(mtype, body, sk, nb, neg, name.split(':', 1)[1], {'src': 'repeated:' + name}, forms=('parsed', 'consolidate')) is None:
             res.count('repeated-case-refused:' + name)
 
+    # ---- the RFC 7606 corruption catalogue of C08 (every attribute x malformation, on 2- and 4-byte sessions, the
+    # 2-byte base carrying AS4_PATH and AS4_AGGREGATOR): what is treated as withdrawn / discarded still makes an event
+    from vlib.props import c08
+
+    got = 0
+    for asn4 in (True, False):
+        cases7606 = c08.build_cases(asn4)
+        for i, case in enumerate(cases7606):
+            if i % of != shard % of:
+                continue
+            sk, nb, neg = d.sess(1 if asn4 else 5)  # asn4/noap, as2/noap
+            if bool(sk['asn4']) != asn4:
+                res.inconclusive.append('session kind table changed: rfc7606 catalogue needs asn4/noap at 1 and as2/noap at 5')
+                break
+            name = f'rfc7606-{c08.NAMES.get(case["code"], case["code"])}'
+            if d.message(2, bytes.fromhex(case['body']), sk, nb, neg, name, {'src': f'rfc7606:{case["base"]}:{case["code"]}:{case["corruption"]}'}, forms=('parsed', 'consolidate') if i % 2 else ('parsed',)) is not None:
+                got += 1
+    res.extra['rfc7606_cases_decoded'] = got
+
     # ---- (c) (d) (e)
     k = desc['others']
     for i in range(30 * k):
